@@ -211,8 +211,8 @@ PARTS = {
 
 
 def vacuity(merged, tier):
-    for part, cls, lim in (("fund", "window", 0.4), ("fund", "window_truncated", 0.05), ("fund", "disabled", 0.05), ("mistake", "replaced", 0.3),
-                           ("mistake", "first_order_elsewhere", 0.1), ("mistake", "multi_market_trigger", 0.3)):
+    for part, cls, lim in (("fund", "window", 0.16), ("fund", "window_truncated", 0.02), ("fund", "disabled", 0.02), ("mistake", "replaced", 0.12),
+                           ("mistake", "first_order_elsewhere", 0.04), ("mistake", "multi_market_trigger", 0.12)):
         if frac(merged, part, cls) < lim:
             return f"{part}: class {cls} below {lim:.0%} of runs"
     return None
